@@ -906,6 +906,21 @@ func (env *Env) call(e *Expr) *Val {
 			env.fail("implements: unknown type %s", e.Args[1].Name)
 		}
 		return scalar(And(Neq(a.T, IntLit(0, a.T.Sort)), App("implements", SBool, App("dyntype", SInt, recast(a.T, SIface)), IntLit(int64(env.ex.eng.typeID(ty)), SInt))), boolT)
+	case "fnName":
+		// the function a func value statically denotes (method values: the method, without "$bound")
+		a := env.eval(e.Args[0])
+		if a.Clo != nil {
+			return scalar(StrLit(strings.TrimSuffix(funcShort(a.Clo.fn), "$bound")), types.Typ[types.String])
+		}
+		return scalar(App("fnNameOf", SStr, recast(a.T, SRef)), types.Typ[types.String])
+	case "boundRecv":
+		// the receiver a method value is bound to
+		a := env.eval(e.Args[0])
+		if a.Clo != nil && len(a.Clo.binds) == 1 && strings.HasSuffix(a.Clo.fn.Name(), "$bound") {
+			return a.Clo.binds[0]
+		}
+		env.fail("boundRecv: not a statically known method value")
+		return nil
 	case "spawned":
 		name := e.Args[0].Name
 		for _, n := range env.cur.notes {
